@@ -24,7 +24,7 @@ from .. import vlib
 from ..translate import gen, oracles, zoo
 
 PROP = "C06"
-LEAN_TARGETS = ["SkaModel.Props.C06", "SkaModel.Gen.RngC06"]
+LEAN_TARGETS = ["SkaModel.Props.C06", "SkaModel.Gen.RngC06", "SkaModel.Gen.EffectsC05"]
 LEVEL = "proof"
 RULE = (
     "cases: (exported class, configuration with an integer random_state, candidate mode, data seed); each case = a fresh "
@@ -43,6 +43,17 @@ TRUSTED = ["harness/translate (RNG site classification)", "numpy RandomState / s
 
 def generate(ctx):
     ctx.gen = gen.generate(PROP, ctx)
+    # second generated module: the effect summaries of every pool `query` with the read-before-write analysis
+    # (`query_<Class>_historyFree`): no fitted attribute carries state from one query into the next
+    g5 = gen.generate("C05", None)
+    hist = [o for o in g5["obligations"] if o["kind"] == "history-query"]
+    ctx.hist_flipped = {o["cls"] for o in g5["flips"] if o["kind"] == "history-query"}
+    ctx.notes["query_history_obligations"] = dict(total=len(hist), hold=sum(1 for o in hist if o["value"]), negated=[o["name"] for o in hist if not o["value"]],
+                                                  negated_classes=[o["cls"] for o in hist if not o["value"]])
+    for ob in g5["flips"]:
+        if ob["kind"] == "history-query":
+            where = "; ".join(f"{ld['kind']} {ld.get('attr') or ''} at {ld['file']}:{ld['line']}" for ld in ob["leads"][:3])
+            ctx.broken.append(f"translator: obligation {ob['name']} no longer holds for the current source: the query reads state of an earlier call ({where})")
     ctx.notes["generated_obligations_in_audit"] = ctx.notes.pop("generated_obligations", 0)
     ctx.notes.pop("generated_discharged", None)
 
@@ -241,6 +252,12 @@ def compare_with_summaries(ctx, g, observed):
     for cls, kinds in sorted(observed.items()):
         if cls.startswith("_"):
             continue
+        hist_flipped = getattr(ctx, "hist_flipped", set())
+        if kinds <= {"history-dependence"}:
+            # state carried between queries: the business of the `query_<Class>_historyFree` obligations
+            if cls not in hist_flipped and cls not in ctx.notes.get("query_history_obligations", {}).get("negated_classes", []):
+                ctx.broken.append(f"translator missed: {cls}.query depends on earlier queries on the real code but its summary reads no attribute before writing it")
+            continue
         if all(o["value"] for o in by_cls.get(cls, [])):
             msg = f"translator missed: {cls} is not reproducible on the real code ({sorted(kinds)}) but every draw site of its summaries uses its own generator"
             # with a flipped obligation elsewhere the nondeterminism may come in through an inner strategy
@@ -261,7 +278,12 @@ def search(ctx):
     observed = {}
     t0 = time.time()
     cases = list(zoo.cases())
-    cases.sort(key=lambda c: (c.cls_name not in flipped, c.cls_name))
+    hist_flipped = getattr(ctx, "hist_flipped", set())
+    cases.sort(key=lambda c: (c.cls_name not in hist_flipped, c.cls_name not in flipped, c.cls_name))
+    for case in [c for c in cases if c.cls_name in hist_flipped and c.family in ("pool", "pool_ma")]:
+        for sd in range(4):
+            for mode in case.cand_modes:
+                run_case(ctx, case, ctx.seed + 1000 + 7 * sd, observed, mode=mode, inst="history")
     for rnd in range(6):
         for case in cases:
             if flipped and case.cls_name not in flipped and rnd > 0:
